@@ -5,7 +5,7 @@ Import ListNotations.
 From TV Require Import C40.Model C40.Proofs C40.Proofs2.
 
 Ltac open_state s :=
-  destruct s as [lp0 sp0 lock0 args0 closing0 readers0 writers0 waker0 pend0 queue0 rdyr0 rdyw0 cbs0].
+  destruct s as [lp0 sp0 lock0 args0 closing0 readers0 writers0 waker0 pend0 queue0 rdyr0 rdyw0 cbs0 dead0].
 
 (* ---------- close() ---------- *)
 Lemma cdist_sel : forall s l s', close_pc (lp s) = true -> step_sel s l = Some s' ->
@@ -54,7 +54,7 @@ Proof.
     destruct (IH s1 s' (inv_step _ _ _ I E) C1 H) as [C2 D2]. split; [exact C2|]. simpl. lia.
 Qed.
 
-Lemma cdist_le : forall s, cdist s <= 38.
+Lemma cdist_le : forall s, cdist s <= 40.
 Proof.
   intros s. unfold cdist, selpot, closecost. destruct (lp s), (sp s), (args s), (pend s); lia.
 Qed.
